@@ -173,7 +173,7 @@ class _DictIdioms(ast.NodeTransformer):
                         return sub
                     if f.attr == 'get' and (isinstance(v, ast.Constant) or (
                             isinstance(v, (ast.List, ast.Tuple)) and not v.elts) or (
-                            isinstance(v, ast.Dict) and not v.keys)):
+                            isinstance(v, ast.Dict) and not v.keys) or _pure_expr(v)):
                         test = ast.Compare(left=copy.deepcopy(k), ops=[ast.In()], comparators=[copy.deepcopy(D)])
                         return ast.copy_location(ast.IfExp(test=test, body=sub, orelse=v), n)
                 return n
